@@ -197,11 +197,15 @@ impl<T: Qcow2IoOps> Qcow2Dev<T> {
         // same order)
         handles.sort_by_key(|(key, _)| *key);
         for (key, cluster) in handles {
+            #[cfg(qcow2_rs_verif)]
+            crate::verif::probe("settle:wait-cluster-write");
             // whoever holds this lock zeroes (and fills) the cluster and
             // takes it out of the set before letting go
             let mut lock = cluster.write().await;
             if !(*lock) {
                 *lock = true;
+                #[cfg(qcow2_rs_verif)]
+                crate::verif::probe("settle:zero-new-cluster");
                 if let Err(err) = self
                     .call_fallocate(
                         key << info.cluster_bits(),
